@@ -51,6 +51,32 @@ func (c *Ctx) spawns(pkg string) []spawn {
 			ctor[g.In] = g.Target
 		}
 	}
+	// a function that returns what a constructor returns is a constructor too
+	// (newLexer delegating to a variant with more parameters)
+	for changed := true; changed; {
+		changed = false
+		for _, f := range c.funcsOfPkg(pkg, false) {
+			if ctor[f] != nil || f.Decl == nil {
+				continue
+			}
+			info := f.Info()
+			f.OwnNodes(func(n ast.Node) bool {
+				ret, ok := n.(*ast.ReturnStmt)
+				if !ok || len(ret.Results) != 1 {
+					return true
+				}
+				if call, ok := ast.Unparen(ret.Results[0]).(*ast.CallExpr); ok {
+					if fo := core.StaticCallee(info, call); fo != nil {
+						if g := c.P.FuncOf(fo); g != nil && ctor[g] != nil && ctor[f] == nil {
+							ctor[f] = ctor[g]
+							changed = true
+						}
+					}
+				}
+				return true
+			})
+		}
+	}
 	for _, f := range c.funcsOfPkg(pkg, false) {
 		info := f.Info()
 		f.OwnNodes(func(n ast.Node) bool {
